@@ -286,7 +286,9 @@ def modification_matches(molecule, mappings):
     matches = []
     # Sort on the tuple[str] type names of the mappings so that mappings that
     # define most modifications at the same time get processed first
-    for mod_name in sorted(needed_mod_mappings, key=len, reverse=True):
+    # Mappings for the same number of modifications are processed in
+    # alphabetical order: the order of a set depends on the hash seed.
+    for mod_name in sorted(needed_mod_mappings, key=lambda names: (-len(names), names)):
         mod_mapping = known_mod_mappings[mod_name]
         for mol_to_mod, modification, references in mod_mapping.map(molecule, node_match=ptm_resname_match):
             matches.append((mol_to_mod, modification, references))
